@@ -946,7 +946,8 @@ def run(chk: Check):
         "tests/proxy/test_object_manager.py::test_object_moved_to_bad_region)",
     ]
     if chk.tier == "quick":
-        _mc(chk, U2P, 99, "2obj")
+        _mc(chk, U2, 99, "2obj")
+        _mc(chk, U2S, 99, "2obj-2loc-requests")
         _b1(chk, U2, ["full"], TK, [], "2obj-full")
         _b1(chk, dict(U2, locals=[1, 2]), ["compressed", "cachedHit"], ["cachedSame"], [], "2obj-2loc-compressed-cached")
         _b1(chk, U2S, AK, TK, [1, 2], "2obj-2loc-requests", )
